@@ -23,7 +23,7 @@ GROUPS = [
     ("labels", r"^label::Labelled\[|^combinator::(MapErr|MapErrWithState)\[", ["C17", "C06"]),
     ("text", r"^text::Padded\[|^text::newline::|^regex::Regex\[|^number::Number\[", ["C14"]),
     ("extension", r"^extension::current::", ["C04"]),
-    ("inputref", r"^input::InputRef::(parse|check)$", ["C20"]),
+    ("inputref", r"^input::InputRef::(parse|check)$", ["C20", "C01"]),      # the building blocks of `custom` primitives: inp.check(a) consumes what a matched
     # additional property memberships (the file is decided by the first match above)
     ("+c03", r"^primitive::(End|Any)\[Parser\]|^combinator::ThenIgnore\[Parser\]|^combinator::Repeated\[(Parser|IterParser)\]", ["C03"]),
     ("+c07", r"^combinator::(ToSlice|ToSpan|MapWith|TryMap|TryMapWith|Validate|FoldlWith|FoldrWith|Filter)\[|^primitive::(Select|SelectRef)\[|^pratt::|\[pratt::Operator\]", ["C07"]),
